@@ -998,9 +998,11 @@ def run(rep: Report, tier: str):
     rep.rule("C15.argument-path", "no helper constructs directly a constant opcode whose encoder does not round-trip", 2)
     rep.assume("pickletools argument descriptors and stack_after kinds are the specification of what the standard disassembler/unpickler reads")
     dem = _Demoted(rep)
-    check_capture(repo, dem)
-    check_range(repo, dem)
-    check_length_units(repo, dem)
+    for fn_ in (check_capture, check_range, check_length_units):
+        try:
+            fn_(repo, dem)
+        except AnalysisError as e:
+            rep.info(f"type-level candidate pass {fn_.__name__} not applicable to this spelling of the code: {e}")
     rep.extra["type_level_candidate_instances"] = dem.n
     check_text_escape(repo, rep)
     check_round_trip(repo, rep, tier)
